@@ -70,8 +70,8 @@ pub enum Out {
     Bytes(Vec<u8>),
     Bool(bool),
     Meta { is_dir: bool, is_file: bool, is_symlink: bool, len: u64 },
-    /// (name, d_type code, is_relative_reference)
-    Entries(Vec<(Vec<u8>, u8, bool)>),
+    /// (name, d_type code, is_relative_reference, file_name() when it is Ok)
+    Entries(Vec<(Vec<u8>, u8, bool, Option<Vec<u8>>)>),
 }
 
 fn ft_code(t: tfs::FileType) -> u8 {
@@ -164,7 +164,8 @@ fn execute(env: &Env, op: &ROp, expect_entries: usize) -> Result<Out, ErrInfo> {
                 let e = e.map_err(errinfo)?;
                 let name = e.file_unix_name().map_err(errinfo)?.as_slice();
                 let name = name[..name.len().saturating_sub(1)].to_vec();
-                v.push((name, ft_code(e.file_type()), e.is_relative_reference()));
+                let sname = e.file_name().ok().map(|s| s.as_bytes().to_vec());
+                v.push((name, ft_code(e.file_type()), e.is_relative_reference(), sname));
                 if v.len() > expect_entries + ENTRY_SLACK {
                     break;
                 }
@@ -213,7 +214,7 @@ fn show_op(op: &ROp) -> String {
     }
 }
 
-fn judge_entries(step: usize, op: &ROp, p: &[u8], got: &[(Vec<u8>, u8, bool)], rep: &mut CaseReport) -> Result<(), Failure> {
+fn judge_entries(step: usize, op: &ROp, p: &[u8], got: &[(Vec<u8>, u8, bool, Option<Vec<u8>>)], rep: &mut CaseReport) -> Result<(), Failure> {
     let raw = raw_getdents(p).map_err(|e| Failure::new("harness|observer-error", format!("raw getdents64 on {}: {e}", pshow(p))))?;
     // std::fs::read_dir as second observer: names (it omits "." and ".."), types via lstat
     let mut stdnames: Vec<Vec<u8>> = Vec::new();
@@ -261,7 +262,17 @@ fn judge_entries(step: usize, op: &ROp, p: &[u8], got: &[(Vec<u8>, u8, bool)], r
         let e0 = extra.first().map(|e| pshow(e)).unwrap_or_default();
         return Err(Failure::new(format!("readdir|extra-entry|{shape}"), format!("step {step}: {what}: yielded {} entries, directory has {}; first surplus {}", g.len(), exp.len(), e0)));
     }
-    for (n, _, rel) in got {
+    for (n, _, _, sname) in got {
+        // the &str view of the name: the same bytes when they are UTF-8, an error otherwise
+        let utf8 = std::str::from_utf8(n).is_ok();
+        match sname {
+            Some(s) if !utf8 => return Err(Failure::new("readdir|file_name|Ok for a name that is not UTF-8", format!("step {step}: {what}: file_name() = Ok({}) for entry {}", pshow(s), pshow(n)))),
+            Some(s) if s != n => return Err(Failure::new("readdir|file_name|differs from the entry's name", format!("step {step}: {what}: file_name() = {} for entry {}", pshow(s), pshow(n)))),
+            None if utf8 => return Err(Failure::new("readdir|file_name|Err for a UTF-8 name", format!("step {step}: {what}: file_name() failed for entry {}", pshow(n)))),
+            _ => {}
+        }
+    }
+    for (n, _, rel, _) in got {
         let is = n == b"." || n == b"..";
         if *rel != is {
             return Err(Failure::new(format!("readdir|is_relative_reference|{}", if is { "false for dot entry" } else { "true for ordinary name" }), format!("step {step}: {what}: is_relative_reference() = {rel} for entry {}", pshow(n))));
@@ -274,6 +285,9 @@ fn judge_entries(step: usize, op: &ROp, p: &[u8], got: &[(Vec<u8>, u8, bool)], r
     rep.class_if(raw.iter().any(|x| x.0.len() == 255), "name-255");
     rep.class_if(raw.iter().any(|x| std::str::from_utf8(&x.0).is_err()), "non-utf8-name");
     rep.class_if(raw.iter().any(|x| x.1 == libc::DT_FIFO), "fifo-entry");
+    rep.class_if(raw.iter().any(|x| x.1 == libc::DT_SOCK), "socket-entry");
+    rep.class_if(raw.iter().any(|x| x.1 == libc::DT_CHR), "chardev-entry");
+    rep.class_if(raw.iter().any(|x| x.1 == libc::DT_BLK), "blockdev-entry");
     rep.class_if(raw.iter().any(|x| x.1 == libc::DT_LNK), "symlink-entry");
     rep.class_if(raw.iter().any(|x| x.1 == libc::DT_UNKNOWN), "kernel-says-unknown-type");
     rep.class_if(raw.len() == 2, "empty-dir");
